@@ -679,3 +679,44 @@ func antecedents(g *Term) []*Term {
 	}
 	return nil
 }
+
+// runObligationAgain re-runs every stage of an already rendered obligation with new limits.
+func runObligationAgain(o *Obligation, opt solveOpts) {
+	var files []string
+	files = append(files, o.FocusFiles...)
+	if o.AbstractFile != "" {
+		files = append(files, o.AbstractFile)
+	}
+	files = append(files, o.QueryFile)
+	if o.FullFile != "" {
+		files = append(files, o.FullFile)
+	}
+	if o.anteFile != "" {
+		files = append(files, o.anteFile)
+	}
+	t0 := time.Now()
+	last := solveResult{answer: "unknown", backend: "all"}
+	for _, f := range files {
+		if _, err := os.Stat(f); err != nil {
+			continue
+		}
+		r, _ := raceSolvers(f, opt.secs, false)
+		definitive := f == o.QueryFile || f == o.FullFile
+		if r.answer == "unsat" || (r.answer == "sat" && definitive) {
+			last = r
+			if r.answer == "unsat" {
+				break
+			}
+			if f == o.QueryFile && o.FullFile == "" {
+				break
+			}
+		} else if r.answer == "unknown" {
+			last.output = r.output
+		}
+	}
+	o.Result, o.Backend, o.Secs, o.Output = last.answer, last.backend+"/retry", last.secs, last.output
+	o.Wall += time.Since(t0).Seconds()
+	if o.Result == "sat" {
+		o.Model = parseValues(last.output, o.valNames)
+	}
+}
